@@ -116,6 +116,18 @@ impl Store {
     pub async fn exec(&self, op: &Value) -> anyhow::Result<Value> {
         let name = op["op"].as_str().unwrap_or("");
         let u = |k: &str| op[k].as_u64().unwrap_or(0);
+        if let Some(n) = op["apply_storm"].as_u64() {
+            // the apply stream of a busy node: one fire-and-forget SaveLastAppliedLog per applied entry (exactly what
+            // StateApplyManager does), running while this operation talks to the same index actor
+            let idx = self.index.clone();
+            let k = u("apply_k");
+            actix_rt::spawn(async move {
+                for _ in 0..n {
+                    idx.do_send(RaftIndexRequest::SaveLastAppliedLog(k));
+                    tokio::task::yield_now().await;
+                }
+            });
+        }
         Ok(match name {
             "append" => {
                 let e = normal_entry(u("index"), u("term"), u("uid"), u("len") as usize);
